@@ -53,6 +53,7 @@ def cases_for(prop, tier):
         yield {'stack': 'move', 'vec': 'sss', 'refill': True}
         yield {'stack': 'move', 'vec': 'srs'}       # the destination refuses the class of the second instance
         yield {'stack': 'move', 'vec': 'ss', 'dest_fault': 'hang-after-last'}
+        yield {'stack': 'move', 'vec': 'sss', 'mid': 65535}     # the largest message id on the C-MOVE request
         yield {'stack': 'move', 'vec': 's' if not thorough else 'sw', 'clients': 2}
         for v in (['', 's', 'sws'] + (['ss', 'sf', 'ssss'] if thorough else [])):
             yield {'stack': 'get', 'vec': v, 'pending': True}
@@ -72,6 +73,7 @@ def cases_for(prop, tier):
             yield {'stack': 'same-uid', 'n': 3}
         yield {'stack': 'msg-ids', 'n': 1000}
         yield {'stack': 'artim-next-to-echo', 'count_all': True}
+        yield {'stack': 'request-next-to-mute-peer'}
         yield {'stack': 'rq-repeat', 'times': 3}
         yield {'stack': 'reconfigure'}
     elif prop == 'C17':
@@ -218,7 +220,7 @@ def make(case):
                     q.PatientID = L
                     try:
                         with cae.request_association({'aet': 'QR', 'address': 'srv', 'port': 104}) as asce:
-                            for status, rsp in asce.get_scu(MOVE)(q, 'DEST', 31 + j):
+                            for status, rsp in asce.get_scu(MOVE)(q, 'DEST', case.get('mid', 31) + j):
                                 got.append((int(status), rsp.num_of_remaining_sub_ops, rsp.num_of_completed_sub_ops, rsp.num_of_failed_sub_ops,
                                             rsp.num_of_warning_sub_ops, rsp.message_id_being_responded_to))
                             if case.get('dest_fault'):
@@ -451,6 +453,39 @@ def make(case):
                 run_client(body, cae, {'aet': 'SCP', 'address': 'srv', 'port': 104})()
             sched.spawn(later, 'client')
 
+        elif kind == 'request-next-to-mute-peer':
+            # one entity, two of its threads request associations: the first from a peer that takes the connection, reads the
+            # request and never answers, the second (a second later) from a peer that works - the second is not held up by the first
+            srv = assoc.make_ae('SCP', [IMPL], 16384, [sopclass.verification_scp])
+            net.listen(('srv', 104), e3.serve_ae(srv))
+
+            def mute(end, addr):
+                end.recv(4096)
+                e3.cur().sleep(40)
+                end.close()
+            mute.vp_name = 'mute'
+            net.listen(('mute', 104), mute)
+            cae = applicationentity.ClientAE('SCU', [IMPL], 16384).add_scu(sopclass.verification_scu)
+
+            def first():
+                try:
+                    with cae.request_association({'aet': 'MUTE', 'address': 'mute', 'port': 104}) as asce:
+                        results['first'] = 'established'
+                except exceptions.NetDICOMError as exc:
+                    results['first'] = type(exc).__name__
+                results['first_after'] = round(e3.cur().now, 2)
+            sched.spawn(first, 'client-a')
+
+            def body(asce):
+                results['echo'] = int(asce.get_scu(VERIF)(98))
+                results['echo_after'] = round(e3.cur().now - results['t_start'], 2)
+
+            def second():
+                e3.cur().sleep(1.0)
+                results['t_start'] = e3.cur().now
+                run_client(body, cae, {'aet': 'SCP', 'address': 'srv', 'port': 104})()
+            sched.spawn(second, 'client')
+
         elif kind == 'rq-repeat':
             # one entity (with provider services, so that role selection is proposed) requests several associations one after
             # the other from ONE remote-AE configuration dictionary that carries extra user information
@@ -614,7 +649,7 @@ def judge(case, out):
         n = len(vec)
         for j, L in enumerate('AB'[:case.get('clients', 1)]):
             tag = '' if case.get('clients', 1) == 1 else ' [client %s]' % L
-            mid = 31 + j
+            mid = case.get('mid', 31) + j
             if r['clients'].get(L) != 'ok' and not case.get('dest_fault'):
                 viol.append((sig + ':client-error', 'the requesting application got %r%s (%s)' % (r['clients'].get(L), tag, where)))
                 continue
@@ -731,6 +766,14 @@ def judge(case, out):
         if sl is None or sl[0] != 0 or not (9.9 <= sl[1] <= 10.3):
             viol.append((sig + ':artim', 'a connection on which the peer never sent anything was closed after %r (bytes received by the peer, virtual seconds); '
                          'ARTIM is 10 s, another association was served in between (%s)' % (sl, where)))
+    elif kind == 'request-next-to-mute-peer':
+        if r.get('echo') != 0:
+            viol.append((sig + ':echo', 'echo status %r (%s)' % (r.get('echo'), where)))
+        if r.get('echo_after') is None or r['echo_after'] > 2.0:
+            viol.append((sig + ':held-up', 'while another thread of the entity waited for a peer that never answers its association request, requesting an '
+                         'association from a working peer and one echo took %r virtual seconds (%s)' % (r.get('echo_after'), where)))
+        if r.get('first') not in ('DCMTimeoutError', 'AssociationAbortedError', 'AssociationError', 'NetDICOMError'):
+            viol.append((sig + ':first', 'the request to the peer that never answers ended as %r after %r s (%s)' % (r.get('first'), r.get('first_after'), where)))
     elif kind == 'rq-repeat':
         from . import ref_pdu
         if r.get('echo') != [0] * case['times']:
